@@ -19,7 +19,9 @@
 #include <mutex>
 #include <vector>
 
+#include <dirent.h>
 #include <sched.h>
+#include <cstdlib>
 #include <time.h>
 
 #ifndef BITCOIN_VERIF
@@ -238,12 +240,25 @@ struct Affinity {
             }
         }
     }
-    //! Pin the calling thread (and every thread it creates afterwards) to `n` CPUs chosen by rng. Returns CPUs in effect.
+    //! Apply a mask to every existing thread of the process (threads created later inherit the creator's mask).
+    static bool ApplyAll(const cpu_set_t& s)
+    {
+        bool any = false;
+        if (DIR* d = opendir("/proc/self/task")) {
+            while (struct dirent* e = readdir(d)) {
+                const int tid = std::atoi(e->d_name);
+                if (tid > 0 && sched_setaffinity(tid, sizeof(s), &s) == 0) any = true;
+            }
+            closedir(d);
+        }
+        return any;
+    }
+    //! Pin the whole process to `n` CPUs chosen by rng (over-subscription). Returns the number of CPUs in effect.
     int Pin(int n, vh::Rng& rng)
     {
         if (!ok || cpus.empty()) return 0;
         if (n >= static_cast<int>(cpus.size())) {
-            sched_setaffinity(0, sizeof(orig), &orig);
+            ApplyAll(orig);
             return static_cast<int>(cpus.size());
         }
         std::vector<int> c = cpus;
@@ -251,12 +266,12 @@ struct Affinity {
         cpu_set_t s;
         CPU_ZERO(&s);
         for (int i = 0; i < n; ++i) CPU_SET(c[i], &s);
-        if (sched_setaffinity(0, sizeof(s), &s) != 0) return 0;
+        if (!ApplyAll(s)) return 0;
         return n;
     }
     void Restore()
     {
-        if (ok) sched_setaffinity(0, sizeof(orig), &orig);
+        if (ok) ApplyAll(orig);
     }
 };
 
